@@ -70,18 +70,17 @@ def stages_separately(path: pathlib.Path) -> Dict[str, Any]:
         if errs is not None:
             bad.append("csharp_lib.verify_for_types")
         else:
-            spec = {}
+            # the complete snippet set of the C# target for this model, under the keys which the C# generators look up
+            # (harness.mm_run.snippets_for: collected from the ImplementationKey(...) call sites of aas_core_codegen/csharp/**,
+            # NOT from the smoke tool): "C# generation of what smoke covers succeeds when all the snippets are there"
+            from harness import mm
+
             dummy = Stripped("DUMMY IMPLEMENTATION")
-            for cls in st.classes:
-                if cls.is_implementation_specific:
-                    spec[specific_implementations.ImplementationKey(f"Types/{cls.name}/{cls.name}.cs")] = dummy
-                    continue
-                for method in cls.methods:
-                    if isinstance(method, intermediate.ImplementationSpecificMethod):
-                        spec[specific_implementations.ImplementationKey(f"Types/{cls.name}/{method.name}.cs")] = dummy
-            for v in st.verification_functions:
-                if isinstance(v, intermediate.ImplementationSpecificVerification):
-                    spec[specific_implementations.ImplementationKey(f"Verification/{v.name}.cs")] = dummy
+            spec = {
+                specific_implementations.ImplementationKey(key): dummy
+                for key in mm.snippets_for("csharp", st)
+                if key.endswith(".cs")
+            }
             ns = csharp_common.NamespaceIdentifier("DummyNamespace")
             _, e1 = csharp_lib.generate_types(symbol_table=verified, namespace=ns, spec_impls=spec)
             if e1 is not None:
@@ -106,6 +105,32 @@ def report_shape_ok(err: str) -> bool:
         and lines[1].startswith("* ")
         and all(ln.startswith("* ") or ln.startswith("  ") or ln.strip() == "" for ln in lines[1:-1])
     )
+
+
+SPECIFIC_TAIL = '\n\n__version__ = "dummy"\n__xml_namespace__ = "https://dummy.com"\n'
+
+
+def implementation_specific_models() -> List[Tuple[str, str]]:
+    """Seed independent: everything that can be marked implementation-specific (class, constructor, method, verification
+    function), alone and together -- smoke supplies dummy snippets for these, the generators look them up."""
+    holder = "class Holder:\n    thing: Thing\n\n    def __init__(self, thing: Thing) -> None:\n        self.thing = thing\n"
+    parts = {
+        "class": "@implementation_specific\nclass Thing:\n    val: str\n\n    def __init__(self, val: str) -> None:\n        self.val = val\n\n\n" + holder,
+        "constructor": "class Thing:\n    @implementation_specific\n    def __init__(self) -> None:\n        pass\n\n\n" + holder,
+        "method": (
+            "class Thing:\n    val: str\n\n    def __init__(self, val: str) -> None:\n        self.val = val\n\n"
+            "    @implementation_specific\n    def compute(self) -> str:\n        pass\n\n\n" + holder
+        ),
+        "verification": (
+            "@verification\n@implementation_specific\ndef is_fine(text: str) -> bool:\n    pass\n\n\n"
+            "@invariant(lambda self: is_fine(self.val), \"Val is fine.\")\n"
+            "class Thing:\n    val: str\n\n    def __init__(self, val: str) -> None:\n        self.val = val\n\n\n" + holder
+        ),
+    }
+    out = [("specific_" + k, v + SPECIFIC_TAIL) for k, v in parts.items()]
+    both = parts["class"].replace("Thing", "Special").replace("Holder", "Special_holder").replace("thing", "special") + "\n\n" + parts["method"]
+    out.append(("specific_class_and_method", both + SPECIFIC_TAIL))
+    return out
 
 
 def models(ctx: Ctx, scratch: pathlib.Path) -> Iterator[Tuple[str, pathlib.Path]]:
@@ -137,7 +162,7 @@ def models(ctx: Ctx, scratch: pathlib.Path) -> Iterator[Tuple[str, pathlib.Path]
         ("syntax_error", "class A(:\n"),
         ("empty", ""),
         ("import_os", "import os\n__version__='1'\n__xml_namespace__='https://x.com'\n"),
-    ]:
+    ] + implementation_specific_models():
         p = scratch / (name + ".py")
         p.write_text(text)
         yield "synthetic", p
@@ -214,4 +239,15 @@ def oracle(ctx: Ctx) -> None:
 def replay(ctx: Ctx, data: Dict[str, Any]) -> Any:
     inp = data["failure"]["input"] if "failure" in data else data
     p = REPO / inp["model"]
+    if not p.exists():
+        # a corpus or synthetic model: recorded by the name of its file
+        scratch = ctx.scratch()
+        texts = {c["name"] + ".py": c["text"] for c in corpus(ID)}
+        texts.update({name + ".py": text for name, text in implementation_specific_models()})
+        if "text" in inp:
+            texts[inp["model"]] = inp["text"]
+        if inp["model"] not in texts:
+            return {"error": f"model {inp['model']} not found"}
+        p = scratch / inp["model"]
+        p.write_text(texts[inp["model"]])
     return {"smoke": run_smoke(p), "stages": stages_separately(p)}
